@@ -426,7 +426,8 @@ STD_NAMES = ["Option", "Vec", "String", "Box", "Result", "Default", "Clone", "De
 class RawDoc:
     """A document given as text (one or more files); label names the construct it exercises."""
 
-    def __init__(self, name, files, main=None, label=None, mode="thrift"):
+    def __init__(self, name, files, main=None, label=None, mode="thrift", dedup=None):
+        self.dedup = dedup or []
         self.name = name
         self.files = files  # {relative path: text}
         self.main = main or list(files.keys())[0]
@@ -528,6 +529,10 @@ exception ExRec { 1: optional ExRec cause, 2: string msg }
 struct ReqRec { 1: required ReqHolder h }
 struct ReqHolder { 1: list<ReqRec> rs }
 service RecSvc { SelfRec get(1: URec u, 2: TdAlias t) throws (1: ExRec e) }
+struct Expr { 1: required Node node, 2: string note }
+union Node { 1: i64 lit, 2: Expr neg, 3: list<Expr> call }
+struct DefReq { 1: DefU u }
+union DefU { 1: DefReq back, 2: i32 stop }
 """
     docs.append(RawDoc("recursion_all", {"recursion_all.thrift": body}, label="recursive-types-through-every-construct"))
     # type cycles whose members reach types without Hash/Eq/Ord (double) or without PartialOrd (map, set)
@@ -665,6 +670,18 @@ struct Model { 1: string b, 2: optional multi_v1.Model old, 3: list<multi_v1.Onl
         shared["shared_p%d.thrift" % i] = ("namespace rs shared.model\n\nstruct Part%dKey { 1: i32 id, 2: string name }\n"
                                            "struct Part%dValue { 1: optional Part%dKey key, 2: list<i64> xs }\nenum Part%dKind { A = 0, B = 1 }\n" % (i, i, i, i))
     docs.append(RawDoc("shared_ns", shared, main="shared_main.thrift", label="several-files-one-rust-module"))
+    # Builder::dedup: a structurally identical item declared in many modules (each module keeps its
+    # own copy), and declared twice within one module by two files (kept once)
+    dd = {"dd_main.thrift": "".join('include "dd_m%02d.thrift"\n' % i for i in range(1, 13)) + "namespace rs dd.top\n\nstruct Top { " +
+          " ".join("%d: optional dd_m%02d.Common c%d," % (i, i, i) for i in range(1, 13)) + " }\n"}
+    for i in range(1, 13):
+        dd["dd_m%02d.thrift" % i] = ("namespace rs dd.m%02d\n\nstruct Common { 1: i32 a, 2: string b }\nstruct Use%02d { 1: optional Common c, 2: i64 n }\n"
+                                      "enum Kind { A = 0, B = 1 }\n" % (i, i))
+    docs.append(RawDoc("dedup_modules", dd, main="dd_main.thrift", label="dedup-same-item-in-many-modules", dedup=["Common", "Kind"]))
+    ds = {"ds_main.thrift": 'include "ds_a.thrift"\ninclude "ds_b.thrift"\nnamespace rs ds.model\n\nstruct Holder { 1: optional ds_a.Common a, 2: optional ds_b.Common b, 3: optional ds_a.OnlyA oa }\n',
+          "ds_a.thrift": "namespace rs ds.model\n\nstruct Common { 1: i32 a, 2: string b }\nstruct OnlyA { 1: Common c }\n",
+          "ds_b.thrift": "namespace rs ds.model\n\nstruct Common { 1: i32 a, 2: string b }\nstruct OnlyB { 1: Common c }\n"}
+    docs.append(RawDoc("dedup_shared", ds, main="ds_main.thrift", label="dedup-same-item-twice-in-one-module", dedup=["Common"]))
     # services: oneway, void, extends within the file, many args, no-arg, annotations on methods
     body = """struct R { 1: i32 a }
 exception E1 { 1: string m }
@@ -909,6 +926,9 @@ def proto_docs_raw():
     body += "message Option { int32 a = 1; }\nmessage Vec { Option o = 1; }\nmessage Box { Vec v = 1; oneof type { string s = 2; int32 i = 3; } }\n"
     body += "service KwSvc { rpc Get(Option) returns (Vec); rpc Stream(stream Box) returns (stream Vec); }\n"
     out.append(RawDoc("pb_naming", {"pb_naming.proto": body}, label="protobuf:naming-stress", mode="proto"))
+    req = ('syntax = "proto2";\npackage rqo;\nmessage PExpr { required PNode node = 1; }\n'
+           'message PNode { oneof k { int64 lit = 1; PExpr neg = 2; } repeated PExpr call = 3; }\n')
+    out.append(RawDoc("pb_required_recursion", {"pb_required_recursion.proto": req}, label="protobuf:required-recursion-through-oneof", mode="proto"))
     rec = 'syntax = "proto3";\npackage rco;\nmessage Node { int32 v = 1; oneof next { Node child = 2; string leaf = 3; } }\n'
     out.append(RawDoc("pb_rec_oneof", {"pb_rec_oneof.proto": rec}, label="protobuf:recursive-oneof", mode="proto"))
     return out
